@@ -327,7 +327,28 @@ def project_requests(case, rng):
         reqs.append({'kind': q['kind'], 'source': q['source'], 'position': q['position'], 'file': q['file']})
     for q in G.cycle_requests(rng, spec)[:6]:
         reqs.append(dict(q, multi=True))
+    reqs += tie_requests(spec)
     return reqs + tail
+
+
+def tie_requests(spec):
+    """Alternatives that carry the SAME declaration position: a comment glued to an imported name makes the text
+    search for the first binding run on to the second one (`from a import K as zt# noqa` ... `from b import K2 as zt`),
+    so the two alternatives tie in the sort by position and only the order in which the branches were joined
+    separates them.  Both classes have `shared` and `common`, so the first alternative decides where the answer
+    points.  (Drawn without the request PRNG: the other requests of a case keep their values.)"""
+    cls = [(m['name'], c) for m in spec['modules'] if not m.get('init') for c in m['iface'].get('classes', [])[:1]]
+    out = []
+    for (m1, k1), (m2, k2) in list(zip(cls, cls[1:]))[:2] + ([(cls[-1], cls[0])] if len(cls) > 2 else []):
+        for head, mid in (('try:', 'except ImportError:'), ('if zqc:', 'else:')):
+            for attr in ('shared', 'common'):
+                src = '%s\n    from %s import %s as zt# noqa\n%s\n    from %s import %s as zt\nzr = zt.%s\n' % (
+                    head, m1, k1, mid, m2, k2, attr)
+                out.append({'kind': 'location', 'source': src, 'position': [5, 8 + len(attr)], 'file': 'zqmain.py',
+                            'multi': True, 'tie': True})
+        src = 'try:\n    from %s import %s as zt# noqa\nexcept ImportError:\n    from %s import %s as zt\nzt.\n' % (m1, k1, m2, k2)
+        out.append({'kind': 'assist', 'source': src, 'position': [5, 3], 'file': 'zqmain.py', 'multi': True, 'tie': True})
+    return out
 
 
 def gen_case(seed, i, mode):
